@@ -21,6 +21,12 @@ def min32 (x : UInt64) : UInt32 := (if x ≤ ZIP64_BYTES_THR then x else ZIP64_B
 def flagOf (f : FileData) : UInt16 :=
   (if !isAscii f.fileName then (0x0800 : UInt16) else 0) ||| (if f.encrypted then 1 else 0)
 
+/-- the flag word of the CENTRAL header: an entry re-emitted by `new_append` keeps bit 3 (its local
+header still announces a data descriptor); `using_data_descriptor` is `false` for every entry the
+writer creates itself -/
+def centralFlagOf (f : FileData) : UInt16 :=
+  flagOf f ||| (if f.usingDataDescriptor then 8 else 0)
+
 def datepartOut (t : DateTime) : Out UInt16 :=
   match t.datepart with
   | some d => .ok d
@@ -66,7 +72,7 @@ def centralHeaderChunks (f : FileData) : Out (List Bytes) := do
   if elen > 65535 then .err .invalidArchive else
   let dp ← datepartOut f.time
   let madeBy : UInt16 := (f.system.discr <<< 8) ||| f.versionMadeBy.toUInt16
-  pure [le32 CENTRAL_SIG, le16 madeBy, le16 f.versionNeeded, le16 (flagOf f), le16 f.method.toU16,
+  pure [le32 CENTRAL_SIG, le16 madeBy, le16 f.versionNeeded, le16 (centralFlagOf f), le16 f.method.toU16,
         le16 f.time.timepart, le16 dp, le32 f.crc32, le32 (min32 f.compressedSize),
         le32 (min32 f.uncompressedSize), le16 (UInt16.ofNat f.fileName.length),
         le16 (UInt16.ofNat elen), le16 0, le16 0, le16 0, le32 f.externalAttributes,
